@@ -25,6 +25,8 @@ type pagerFamily struct {
 
 var pagerFamilies = []pagerFamily{
 	{"query-page", func(b string, k int) string { return fmt.Sprintf("%s/forum/thread?page=%d", b, k) }},
+	{"query-page-b", func(b string, k int) string { return fmt.Sprintf("%s/forum/topic.html?page=%d", b, k) }},
+	{"query-page-c", func(b string, k int) string { return fmt.Sprintf("%s/forum/story-b.html?page=%d", b, k) }},
 	{"query-two", func(b string, k int) string { return fmt.Sprintf("%s/view.php?id=77&p=%d", b, k) }},
 	{"path-num", func(b string, k int) string { return fmt.Sprintf("%s/story/slug/%d", b, k) }},
 	{"path-page-num", func(b string, k int) string { return fmt.Sprintf("%s/blog/page/%d/", b, k) }},
@@ -34,7 +36,7 @@ var pagerFamilies = []pagerFamily{
 }
 
 var pagerItemKinds = []wc{{"link", 50}, {"plain", 8}, {"decorated", 5}, {"js", 7}, {"empty", 5}, {"offsite", 5}, {"mailto", 3}, {"malformed", 3},
-	{"pattern2", 5}, {"fragment", 2}, {"lookalike", 3}, {"userinfo", 3}, {"schemerel", 3}, {"upperhost", 2}, {"relative", 5}, {"otherscheme", 2}}
+	{"pattern2", 5}, {"queryonly", 6}, {"fragment", 2}, {"lookalike", 3}, {"userinfo", 3}, {"schemerel", 3}, {"upperhost", 2}, {"relative", 5}, {"otherscheme", 2}}
 
 func genPager(t *rapid.T) pagerPage {
 	g := newG(t, articleProfile())
@@ -56,7 +58,13 @@ func genPager(t *rapid.T) pagerPage {
 			u := fam.link(base, i)
 			return u[len(base):]
 		case "js":
-			return fmt.Sprintf("javascript:go(%d)", i)
+			return fmt.Sprintf(g.pick("jsform", "javascript:go(%d)", "javascript:go(%d)", "JavaScript:go(%d)", "JAVASCRIPT:go(%d)", " javascript:go(%d)", "javascript:void(%d)"), i)
+		case "queryonly":
+			u := fam.link(base, i)
+			if q := strings.Index(u, "?"); q >= 0 {
+				return u[q:]
+			}
+			return u
 		case "empty":
 			return ""
 		case "offsite":
